@@ -21,6 +21,7 @@ import (
 	"github.com/mandykoh/prism/ciexyy"
 	"github.com/mandykoh/prism/ciexyz"
 	"github.com/mandykoh/prism/linear"
+	"github.com/mandykoh/prism/meta/icc"
 
 	"verif/c11/trial"
 	"verif/internal/build"
@@ -29,7 +30,7 @@ import (
 	"verif/internal/sp"
 )
 
-var family, damaged [][]byte
+var family, damaged, profiles, rejected [][]byte
 
 var (
 	srcRGBA64 *image.RGBA64
@@ -80,6 +81,18 @@ func setup() {
 		j, _ := build.JPEG{Segs: append(build.ICCSegs(prof, []int{100 + i}), build.Seg{Marker: 0xC0, Data: build.SOF(8, 7, uint16(10+i), [][3]byte{{1, 0x11, 0}})}), SOS: []byte{1, 1, 0, 0, 63, 0}, Entropy: make([]byte, 3000)}.Bytes()
 		w, _ := build.WebP{Chunks: []build.RIFFChunk{{FourCC: "VP8X", Data: build.VP8XHeader(0x20, uint32(9+i), 6)}, {FourCC: "ICCP", Data: prof}, {FourCC: "VP8L", Data: build.VP8LHeader(uint16(9+i), 6, false)}}}.Bytes()
 		family = append(family, p, j, w)
+	}
+	for i := 0; i < 12; i++ {
+		prof := build.SimpleProfile(build.TextDesc(fmt.Sprintf("standalone profile %d", i)), 100+i*41)
+		for k := 4; k < 128; k++ {
+			if k < 24 || k >= 40 { // keep the date and the signature
+				prof[k] = byte(k*(i+3) + i*29)
+			}
+		}
+		profiles = append(profiles, prof)
+		bad := append([]byte(nil), prof...)
+		bad[36+i%4] ^= 0x20
+		rejected = append(rejected, bad)
 	}
 	wd, _ := build.WebP{Chunks: []build.RIFFChunk{{FourCC: "VP8X", Data: build.VP8XHeader(0x20, 9, 6)}, {FourCC: "ICCP", Data: make([]byte, 4000)}}}.Bytes()
 	damaged = append(damaged, wd[:len(wd)-1500]) // truncated ICCP
@@ -220,6 +233,18 @@ func run(op trial.Op) uint64 {
 			rest = int(digest(buf.Bytes()))
 		}
 		return digest(o.OK, o.Format, o.W, o.H, o.ICC, o.ICCErr, rest)
+	case "Profile":
+		// one of 12 profiles whose headers differ in every field; every fourth call first parses a header that is
+		// rejected (error paths hand resources back too)
+		if a%4 == 0 {
+			icc.NewProfileReader(bytes.NewReader(rejected[a%len(rejected)])).ReadProfile()
+		}
+		p, err := icc.NewProfileReader(bytes.NewReader(profiles[a%len(profiles)])).ReadProfile()
+		if err != nil {
+			return digest(err.Error())
+		}
+		d, derr := p.Description()
+		return digest(fmt.Sprintf("%+v", p.Header), d, derr)
 	case "Adapt":
 		ad := ciexyz.AdaptBetweenXYYWhitePoints(ciexyy.D50, ciexyy.Color{X: 0.3 + float32(a%100)/1000, Y: 0.33, YY: 1})
 		return digest(ad.Apply(ciexyz.Color{X: 0.2, Y: 0.5, Z: 0.7}), ciexyz.Color{X: float32(a%97) / 97, Y: 0.4, Z: 0.9}.ToLAB(ciexyz.D65))
